@@ -44,10 +44,21 @@ out["baseline_missing_with_patch"] = len(missing)
 print("pinned suite with patch: %d/%d baseline tests pass" % (len(stable) - len(missing), len(stable)))
 if missing: print(pt.stdout[-1500:], pt.stderr[-500:])
 os.unlink(junit)
-subprocess.run(["git", "-C", "/repo", "worktree", "remove", "--force", wt], capture_output=True)
-shutil.rmtree(wt, ignore_errors=True)
 valid = rc0 == 0 and rc1 != 0 and not missing
 out["valid"] = valid
+if "--scratch" in sys.argv:
+    # preliminary run while /repo must stay untouched (a sweep is reading it): the check is pointed at the patched scratch worktree;
+    # nothing is filed - the filing run is the default mode (patch applied to /repo itself)
+    e = dict(os.environ, VMON_REPO=wt, VMON_EVIDENCE_DIR="/tmp/sv_ev_%s" % name, VMON_REPLAY_DIR="/tmp/sv_rp_%s" % name)
+    r = subprocess.run([os.path.join(HERE, "check"), pid, "--tier", "quick"], env=e, capture_output=True, text=True, timeout=7200)
+    keys = sorted(set(l.split("key=")[1].split(" ::")[0] for l in r.stdout.splitlines() if l.startswith("VIOLATION") and "key=" in l))
+    out["check_quick"] = {"exit": r.returncode, "violation_keys": keys, "scratch": True}
+    shutil.rmtree("/tmp/sv_ev_%s" % name, ignore_errors=True); shutil.rmtree("/tmp/sv_rp_%s" % name, ignore_errors=True)
+    subprocess.run(["git", "-C", "/repo", "worktree", "remove", "--force", wt], capture_output=True)
+    shutil.rmtree(wt, ignore_errors=True)
+    print(json.dumps(out)); sys.exit(0)
+subprocess.run(["git", "-C", "/repo", "worktree", "remove", "--force", wt], capture_output=True)
+shutil.rmtree(wt, ignore_errors=True)
 # ---- run our checks against /repo with the patch applied -----------------------------------------------------
 st = subprocess.run(["git", "-C", "/repo", "status", "--porcelain"], capture_output=True, text=True).stdout.strip()
 assert not st, "/repo working tree not clean: " + st
